@@ -8,5 +8,18 @@ package portforwarding
 // readPacket decodes a peer-supplied forwarding request: on success it yields an address object
 // (its callers call methods on it), never a nil interface.
 //@ func readPacket(r io.Reader) (addr net.Addr, fwdType byte, err error)
-//@   property C11
+//@   property C11 C18
 //@   ensures err == nil ==> addr != nil
+// (C18) TCP and UDP addresses are decoded with net.SplitHostPort (the inverse of the encoder's net.JoinHostPort)
+//@   ensures err == nil && !typeis(addr, "*net.UnixAddr") ==> called(net.SplitHostPort) && resultof(net.SplitHostPort, err) == nil
+
+// (C18) a forwarding request is: network type, forward type, 16-bit big-endian address length, address string.
+// An address that does not fit the length field is refused (nil), not wrapped; for TCP and UDP the address
+// string is net.JoinHostPort's output - the inverse of the net.SplitHostPort call readPacket decodes it with.
+//@ func toBytes(f net.Addr, fwdType int) (out []byte)
+//@   property C18
+//@   pure
+//@   requires ref(f) != nil
+//@   ensures out != nil ==> len(out) >= 4 && len(out) - 4 <= 65535 && out[1] == uint8(fwdType) && out[2] == uint8((len(out) - 4) >> 8) && out[3] == uint8(len(out) - 4)
+//@   ensures out != nil ==> out[0] == 1 || out[0] == 2 || out[0] == 3
+//@   ensures out != nil && out[0] != 3 ==> called(net.JoinHostPort) && bytes(out[4:]) == bytes(resultof(net.JoinHostPort, hp))
